@@ -500,9 +500,19 @@ impl Compiler {
                 result
             }
             Node::MainBlock { body, local_count } => {
+                let local_count = match u8::try_from(*local_count) {
+                    Ok(x) => x,
+                    Err(_) => {
+                        return self.error(ErrorKind::FunctionPropertyLimit {
+                            property: "locals".into(),
+                            amount: *local_count,
+                        });
+                    }
+                };
+
                 self.compile_frame(
                     FrameParameters {
-                        local_count: *local_count as u8,
+                        local_count,
                         expressions: body,
                         args: &[],
                         captures: &[],
@@ -675,13 +685,15 @@ impl Compiler {
             is_generator,
         } = params;
 
-        self.frame_stack.push(Frame::new(
+        let frame = Frame::new(
             local_count,
             &self.collect_args(args, ctx)?,
             captures,
             output_type,
             is_generator,
-        ));
+        )
+        .map_err(|e| self.make_error(e))?;
+        self.frame_stack.push(frame);
 
         // Check argument types and unpack nested args
         for (arg_index, arg) in args.iter().enumerate() {
@@ -2723,6 +2735,9 @@ impl Compiler {
                 }
                 _ => {
                     let max_batch_size = self.frame().available_registers_count() as usize;
+                    if max_batch_size == 0 {
+                        return self.error(FrameError::StackOverflow);
+                    }
                     for elements_batch in elements.chunks(max_batch_size) {
                         let stack_count = self.stack_count();
                         let start_register = self.frame().next_temporary_register();
